@@ -976,6 +976,9 @@ func RunC05(t *kernel.Tape, o Opts) *Result {
 		fault(res, "history_ops", len(programs[0]))
 	}
 	probe(res, "goroutines_of_code_under_test", s.Spawned)
+	probe(res, "resumed_after_all_tasks_blocked", s.Resumed)
+	probe(res, "blocking_operations", s.BlockOps)
+	probe(res, "selects_with_drawn_case_order", s.Selects)
 	for i := 0; i < s.N(); i++ {
 		if pv := s.TaskPanic(i); pv != nil {
 			violate(res, "panic", "panic:harness-task", 0, "task %d panicked outside an operation: %v", i, pv)
